@@ -14,6 +14,9 @@ import threading as _real_threading
 import types
 
 
+REAL_TIMEOUT = 45.0   # seconds of real time one controlled scenario may take (they take milliseconds)
+
+
 class Abort(BaseException):
     """raised inside controlled threads to unwind them after a deadlock / at the end"""
 
@@ -52,6 +55,7 @@ class Controller:
         self.lock_names = {}
         self.edges = set()          # lock-order edges (held -> requested)
         self.wait_violations = []   # waits for a thread / the queue while holding a lock
+        self.foreign = None         # set when an uncontrolled thread touched a shimmed object
 
     # ---------------------------------------------------------------- thread management
     def new_thread(self, target, name):
@@ -163,7 +167,12 @@ class Controller:
         first = self._pick(self.runnable())
         self.current = first
         first.baton.release()
-        self.main_baton.acquire()
+        if not self.main_baton.acquire(timeout=REAL_TIMEOUT):
+            # nobody handed the baton back for a long real time: a controlled thread blocks outside the shims (a primitive
+            # they do not cover) - this run decides nothing about the scheduler
+            self.aborting = True
+            self.foreign = self.foreign or "controller stuck: a controlled thread blocks in something the shims do not cover"
+            raise ForeignThread(self.foreign)
         for t in self.threads:
             t.real.join(timeout=5)
         if self.deadlock:
@@ -198,6 +207,18 @@ def set_controller(c):
     _CTRL = c
 
 
+class ForeignThread(RuntimeError):
+    """a thread the controller does not know (created through an API the shims do not cover) touched a shimmed object"""
+
+
+def _check_thread(c):
+    """called at the entry of every shimmed blocking operation while a controlled phase is running"""
+    if c is not None and c.current is not None and c.current.real is not None \
+            and _real_threading.get_ident() != c.current.real.ident:
+        c.foreign = f"thread {_real_threading.current_thread().name!r} is not under the controller"
+        raise ForeignThread(c.foreign)
+
+
 class CoRLock:
     _n = 0
 
@@ -221,6 +242,7 @@ class CoRLock:
 
     def acquire(self, blocking=True, timeout=-1):
         c = _CTRL
+        _check_thread(c)
         st = c.current if c else None
         if c is None or st is None:
             # setup phase: single uncontrolled thread
@@ -311,6 +333,7 @@ class CoQueue:
         return 0 < self.maxsize <= len(self.items)
 
     def put(self, item, block=True, timeout=None):
+        _check_thread(_CTRL)
         if self.full():
             c0 = _CTRL
             if not block or not (c0 and c0.current):
@@ -324,6 +347,7 @@ class CoQueue:
 
     def get(self, block=True, timeout=None):
         c = _CTRL
+        _check_thread(c)
         if c and c.current:
             c.yield_point("qget?")
         if not self.items:
@@ -508,6 +532,17 @@ def install():
             m.threading = shim_threading
         if hasattr(m, "queue"):
             m.queue = shim_queue
+        # classes of the module that derive from the real Thread (defined at import time, before the names were rebound)
+        for obj in list(vars(m).values()):
+            if isinstance(obj, type) and obj.__module__ == m.__name__ and _real_threading.Thread in obj.__bases__:
+                try:
+                    obj.__bases__ = tuple(CoThread if b is _real_threading.Thread else b for b in obj.__bases__)
+                    _REBASED.append(obj)
+                except TypeError:
+                    pass
+
+
+_REBASED = []
 
 
 def uninstall():
@@ -521,6 +556,12 @@ def uninstall():
             m.threading = _real_threading
         if hasattr(m, "queue"):
             m.queue = _real_queue
+    while _REBASED:
+        obj = _REBASED.pop()
+        try:
+            obj.__bases__ = tuple(_real_threading.Thread if b is CoThread else b for b in obj.__bases__)
+        except TypeError:
+            pass
 
 
 # ---------------------------------------------------------------- choosers
